@@ -366,8 +366,19 @@ def rule_hw(ctx):
         side = c[3] if c[1] in ("LtE", "Lt") else c[2]
         if any(t_.kind == "bitlen" for t_ in side.all_atoms()):
           tw = side
-    for c, pol, node in e.state.pc:
-      if isinstance(c, tuple) and c and c[0] == "cmp" and c[1] in ("LtE", "Lt", "GtE", "Gt") and isinstance(c[2], Poly) and isinstance(c[3], Poly):
+    def cmps(c_):
+      if isinstance(c_, tuple) and c_:
+        if c_[0] == "cmp":
+          yield c_
+        elif c_[0] in ("and", "or"):
+          for x_ in c_[1]:
+            yield from cmps(x_)
+        elif c_[0] == "not":
+          yield from cmps(c_[1])
+    for c0, pol, node in e.state.pc:
+      for c in cmps(c0):
+        if not (c[1] in ("LtE", "Lt", "GtE", "Gt") and isinstance(c[2], Poly) and isinstance(c[3], Poly)):
+          continue
         for side, other in ((c[2], c[3]), (c[3], c[2])):
           if any(t_.kind == "bitlen" for t_ in side.all_atoms()) and not any(t_.kind == "bitlen" for t_ in other.all_atoms()) and any(t_.kind == "sym" for t_ in other.all_atoms()) \
              and not any(t_.kind == "param" and t_ != n.as_atom() for t_ in side.all_atoms()):
